@@ -1278,3 +1278,132 @@ def install_cmx(sess):
         sess.check("M-cmx", bool(np.all(ova >= -1e-9)), "negative one-vs-all cell", w, sig=sig, key="ova-negative")
 
     sess.wrap(CM.ConfusionMatrix, "one_vs_all", "M-cmx", post)
+
+
+# --------------------------------------------------------------------------------------
+# M-state / M-shape: side-effect freedom and shapes of every public query (C10)
+
+RATE_NAMES = ["tpr", "fnr", "tnr", "fpr", "topr", "tonr", "tar", "frr", "trr", "far", "acceptance_rate", "rejection_rate"]
+GROUP_RATE_NAMES = ["group_" + n for n in RATE_NAMES]
+
+
+def _obj_state(s):
+    st = [np.asarray(s.pos).tobytes(), str(np.asarray(s.pos).dtype), np.asarray(s.pos).shape, np.asarray(s.neg).tobytes(), str(np.asarray(s.neg).dtype),
+          np.asarray(s.neg).shape, s.nb_easy_pos, s.nb_easy_neg, s.score_class.value, s.equal_class.value]
+    if hasattr(s, "pos_groups"):
+        st += [np.asarray(s.pos_groups).tobytes(), np.asarray(s.neg_groups).tobytes(), np.asarray(s.groups).tobytes()]
+    return st
+
+
+def _arg_snap(args, kwargs):
+    out = []
+    for v in list(args[1:]) + list(kwargs.values()):
+        if isinstance(v, np.ndarray):
+            out.append((v, v.copy()))
+        elif isinstance(v, list):
+            out.append((v, list(v)))
+    return out
+
+
+def _args_unchanged(snap):
+    for live, copy in snap:
+        if isinstance(live, np.ndarray):
+            if live.shape != copy.shape or not np.array_equal(live, copy, equal_nan=True):
+                return False
+        elif live != copy:
+            return False
+    return True
+
+
+def is_plain_scalar_input(v):
+    return isinstance(v, (int, float)) and not isinstance(v, bool) or isinstance(v, np.generic) or (isinstance(v, np.ndarray) and v.ndim == 0)
+
+
+def install_state(sess):
+    import sys
+
+    S = lib()
+    G = sys.modules["score_analysis.group_scores"]
+
+    def pre(args, kwargs):
+        return _obj_state(args[0]), _arg_snap(args, kwargs)
+
+    def state_post(name):
+        def post(snap, args, kwargs, res):
+            st0, argsnap = snap
+            sig = (type(args[0]).__name__, name)
+            sess.check("M-state", _obj_state(args[0]) == st0, "a query mutated the object", lambda: {"method": name, "type": type(args[0]).__name__}, sig=sig, key="state-object")
+            sess.check("M-state", _args_unchanged(argsnap), "a query mutated a caller-supplied array", lambda: {"method": name}, sig=sig, key="state-args")
+
+        return post
+
+    def first_arg(args, kwargs):
+        if len(args) > 1:
+            return args[1]
+        for k, v in kwargs.items():
+            if k != "method":
+                return v
+        return None
+
+    def shape_post(name, kind):
+        sp = state_post(name)
+
+        def post(snap, args, kwargs, res):
+            sp(snap, args, kwargs, res)
+            s = args[0]
+            x = first_arg(args, kwargs)
+            if x is None:
+                return
+            xa = np.asarray(x)
+            if xa.dtype.kind not in "fiub" or (xa.dtype.kind == "f" and np.isnan(xa).any()):
+                sess.skip("M-shape", "non-numeric / NaN input")
+                return
+            rel_ok = True
+            if kind == "thr":
+                rel_ok = len(relevant_scores(s, THR_METRICS[name[len("threshold_at_"):]])) > 0
+            if not rel_ok:
+                return
+            sig = (type(s).__name__, kind, "scalar" if is_plain_scalar_input(x) else ("list" if isinstance(x, list) else "nd%d" % xa.ndim), "size0" if xa.size == 0 else "-")
+            w = lambda **kw: (lambda: dict({"method": name, "input": x if not isinstance(x, np.ndarray) else x, "result_type": str(type(res)), "result_shape": np.shape(res)}, **kw))  # noqa: E731
+            if kind == "cm":
+                sess.check("M-shape", np.shape(res.matrix) == xa.shape + (2, 2), "confusion matrix shape is not X+(2,2)", w(), sig=sig, key="shape-cm")
+                return
+            if kind == "group":
+                G_ = len(s.groups)
+                sess.check("M-shape", np.shape(res) == (G_,) + xa.shape, "per-group rate shape is not (G,)+X", w(), sig=sig, key="shape-group")
+                return
+            if is_plain_scalar_input(x):
+                sess.check("M-shape", type(res) is float, "scalar input does not yield a plain Python float", w(), sig=sig, key="shape-scalar")
+            else:
+                if not sess.check("M-shape", isinstance(res, np.ndarray) and res.shape == xa.shape, "result shape differs from the input shape", w(), sig=sig, key="shape-array"):
+                    return
+                if xa.size:
+                    # elementwise agreement with the scalar call, on up to 6 elements
+                    flat_x = xa.reshape(-1)
+                    flat_r = res.reshape(-1)
+                    idx = np.unique(np.linspace(0, xa.size - 1, 6).astype(int))
+                    kw2 = {k: v for k, v in kwargs.items() if k == "method"}
+                    fn = getattr(s, name)
+                    ok = True
+                    bad = None
+                    for i in idx.tolist():
+                        one = fn(float(flat_x[i]), **kw2)
+                        if not (one == flat_r[i] or (one != one and flat_r[i] != flat_r[i])):
+                            ok, bad = False, (i, float(flat_x[i]), one, float(flat_r[i]))
+                            break
+                    sess.check("M-shape", ok, "an element of the vectorised result differs from the scalar call on that element", w(index_input_scalar_vector=bad), sig=sig, key="shape-elementwise")
+
+        return post
+
+    for n in RATE_NAMES:
+        sess.wrap(S.Scores, n, "M-state", shape_post(n, "rate"), pre=pre)
+    for n in THR_METRICS:
+        sess.wrap(S.Scores, "threshold_at_" + n, "M-state", shape_post("threshold_at_" + n, "thr"), pre=pre)
+    sess.wrap(S.Scores, "cm", "M-state", shape_post("cm", "cm"), pre=pre)
+    sess.wrap(S.Scores, "confusion_matrix", "M-state", shape_post("confusion_matrix", "cm"), pre=pre)
+    for n in ("eer", "auc", "swap", "threshold_at_metric", "bootstrap_sample", "bootstrap_metric", "bootstrap_ci"):
+        sess.wrap(S.Scores, n, "M-state", state_post(n), pre=pre)
+    for n in GROUP_RATE_NAMES:
+        sess.wrap(G.GroupScores, n, "M-state", shape_post(n, "group"), pre=pre)
+    for n in ("group_cm", "swap", "bootstrap_sample", "__getitem__"):
+        sess.wrap(G.GroupScores, n, "M-state", state_post("GroupScores." + n), pre=pre)
